@@ -33,7 +33,10 @@ fn main() {
 fn real_main() -> i32 {
     let args: Vec<String> = std::env::args().collect();
     runner::install_panic_hook();
-    sim::install_hooks();
+    let bare = args.get(1).map(|s| s == "miri").unwrap_or(false) && args.get(3).map(|s| s == "threads").unwrap_or(false);
+    if !bare {
+        sim::install_hooks();
+    }
     let code = match args.get(1).map(|s| s.as_str()) {
         Some("check") => {
             let tier = acc::Tier::parse(args.get(3).map(|s| s.as_str()).unwrap_or("quick"));
